@@ -64,6 +64,7 @@ FRAG_OWNER = {
 }
 
 
+
 class Gen:
     def __init__(self, unit, false_twin=False, auto_fns=None, stub_fns=None):
         self.unit = unit
